@@ -63,7 +63,10 @@ async function check (leaf, resps, ctx) {
     const a2 = (ctx.tier === 'thorough' || n < 2) ? await X.runOne(inCtx, spec) : a1
     n++
     if (a1.result.startsWith('machinery') || !X.sameObs(a1, a2, false).same) { res.notes = { harness_nondeterministic_or_timeout: 1 }; continue }
-    const b = await X.runOne(outCtx, spec)
+    let b = await X.runOne(outCtx, spec)
+    // a time-out of the content alone may be a loaded machine: decided again with ten times the budget (a content
+    // that really does not terminate where the input does is a difference)
+    if (b.result.startsWith('machinery')) b = await X.runOne(outCtx, spec, null, 20000)
     const cmp = X.sameObs(a1, b, relax)
     if (!cmp.same) {
       res.violations.push({ rule: 'exec-diff', sig: sigOf(leaf, cmp.why.replace(/@\d+/, '')), detail: `env=${JSON.stringify(spec)} ${cmp.why}\n  input : ${cmp.a}\n  output: ${cmp.b}\n${code.split('\n').slice(-2).join('\n')}` })
